@@ -51,13 +51,13 @@ ASSUMPTIONS = [
     'a structural operation of a generated (valid) history that raises cannot be "reflected" and is reported under the live-set clause (does not happen on the pinned tree except as a consequence of a listed finding)',
     'handlers neither raise nor suspend; the manager is not running (tick() == task step + flush)',
 ]
-PROBES = ['judged-dispatch', 'warm-after-change', 'detached-root-warm-key', 'limbo-dispatch', 'instance-target', 'default-target',
+PROBES = ['threaded', 'judged-dispatch', 'warm-after-change', 'detached-root-warm-key', 'limbo-dispatch', 'instance-target', 'default-target',
           'in-handler-op', 'nested-flush', 'inherited-handler-invoked', 'override-suppressed-class', 'two-level-inheritance-class', 'implicit-handler-invoked',
           'global-handler-invoked', 'catchall-handler-invoked', 'dynamic-handler-invoked', 'remove-handler', 'readd-handler',
           'partial-remove', 'zero-receivers', 'unjudged-firer-moved', 'tainted-dispatch', 'unregister-completed', 'depth>=3']
 TIERS = {
-    'quick': dict(runs=60000, wall=30, chunk=200, cfg=dict(max_ops=40, max_comps=6)),
-    'thorough': dict(runs=1500000, wall=600, chunk=500, cfg=dict(max_ops=70, max_comps=6)),
+    'quick': dict(runs=60000, wall=30, chunk=200, cfg=dict(max_ops=40, max_comps=6, threaded_share=12)),
+    'thorough': dict(runs=1500000, wall=600, chunk=500, cfg=dict(max_ops=70, max_comps=6, threaded_share=10)),
 }
 
 K_STALE_DETACHED = 'C01/live-set/stale/detached-root'
@@ -867,8 +867,112 @@ class Sim:
         ctx.sim_time = 0.0
 
 
+def _threaded(ctx):
+    """'handlers added or removed ... before that moment are always reflected' when the change is made by ANOTHER THREAD while the loop
+    dispatches (SimThreads; every source line of circuits/core is a pre-emption point).  The actor thread warms the cache with events of
+    one key, calls addHandler()/removeHandler() with pre-emption points inside, and - only after that call has returned - fires further
+    events of the same key; each of those is dispatched after the change was complete, so it must (not) reach the handler."""
+    import random
+    from simcore import simthreads, simnet
+    from simcore.simnet import NET
+    ch = ctx.ch
+    ctx.stat('threaded')
+    simnet.reset(ctx)
+    sched = simthreads.begin(ctx)
+    try:
+        got = {}       # k -> list of handler names that received ev k
+        st = dict(viol=False)
+
+        def fail(key, detail):
+            if not st['viol']:
+                st['viol'] = True
+                ctx.trace('VIOLATION %s: %s' % (key, detail))
+                ctx.violation(key, detail)
+
+        class App(BaseComponent):
+            @handler('ev')
+            def base(self, k):
+                got.setdefault(k, []).append('base')
+                ctx.log('h', 'base', k)
+
+        app = App()
+        nchild = ch.draw(3, 'children')
+        kids = [BaseComponent().register(app) for _ in range(nchild)]
+        target = ([app] + kids)[ch.draw(1 + nchild, 'target')]
+        remove_mode = ch.chance(1, 3, 'remove')
+
+        def extra(self, k):
+            got.setdefault(k, []).append('extra')
+            ctx.log('h', 'extra', k)
+        extra_h = handler('ev')(extra)
+        bound = [None]
+        if remove_mode:
+            bound[0] = target.addHandler(extra_h)
+        nwarm = ch.randint(1, 3, 'warm')
+        nafter = ch.randint(1, 2, 'after')
+
+        def on_idle(timeout, kind, ready_fn):
+            sched.block(('poll', kind, timeout), timeout, ready_fn=ready_fn, idle_wait=True)
+        NET.on_idle = on_idle
+
+        def loop():
+            app.run()
+
+        def actor():
+            sched.wait_until(lambda: app.running, 'running')
+            for k in range(nwarm):
+                app.fire(Event.create('ev', k))
+            ctx.trace('actor: %s on %s' % ('removeHandler' if remove_mode else 'addHandler', 'root' if target is app else 'child'))
+            if remove_mode:
+                target.removeHandler(bound[0])
+            else:
+                bound[0] = target.addHandler(extra_h)
+            ctx.log('changed')
+            for k in range(100, 100 + nafter):
+                app.fire(Event.create('ev', k))
+            lt = sched.threads['loop']
+            sched.wait_until(lambda: lt.state == 'done' or (lt.state == 'blocked' and lt.idle_wait and not len(app)), 'drained')
+            app.stop()
+
+        sched.spawn('loop', loop)
+        sched.spawn('actor', actor)
+        prios = ch.permute([0, 1], 'prio')
+        sched.threads['loop'].prio, sched.threads['actor'].prio = prios
+        fam = ch.weighted([4, 2], 'family')
+        if fam == 0:
+            fn = 'removeHandler' if remove_mode else 'addHandler'
+            sched.site_plan[('actor', fn, 1 + ch.draw(12, 'site-nth'))] = 'loop'
+            if ch.chance(1, 2, 'second'):
+                sched.site_plan[('actor', ch.choice([fn, '_fire', 'fireEvent'], 'site-fn2'), 1 + ch.draw(12, 'site-nth2'))] = 'loop'
+        else:
+            sched.walk = (random.Random(ch.draw(1 << 30, 'walk-seed')), ch.choice([0.05, 0.2, 0.5], 'walk-p'))
+        ok = sched.start()
+        if not ok or sched.limit_hit:
+            raise HarnessLimit('C01 threaded: wall timeout or step limit')
+        if sched.stuck:
+            raise HarnessLimit('C01 threaded: global stop %r' % ({k: v[0] for k, v in sched.stuck.items()},))
+        errs = {n: repr(t.error) for n, t in sched.threads.items() if t.error is not None}
+        if errs:
+            fail('C01/threaded/thread-died', repr(errs))
+        for k in range(100, 100 + nafter):
+            r = sorted(got.get(k, []))
+            want = ['base'] if remove_mode else ['base', 'extra']
+            if r != want and not st['viol']:
+                fail('C01/live-set/stale/%s-by-another-thread' % ('removeHandler' if remove_mode else 'addHandler'),
+                     'ev(%d) was fired after %s() had returned in the other thread, but was delivered to %r (expected %r)' % (
+                         k, 'removeHandler' if remove_mode else 'addHandler', r, want))
+        if sched.preemptions:
+            ctx.stat('preempted', sched.preemptions)
+        ctx.nontrivial = bool(sched.preemptions)
+    finally:
+        simthreads.end()
+        NET.close_all()
+
+
 def run_one(ctx):
     world.reset(ctx)
+    if ctx.ch.draw(ctx.cfg.get('threaded_share', 12), 'mode') == 0:
+        return _threaded(ctx)
     _install_marker()
     sim = Sim(ctx)
     _HOOK[0] = sim
